@@ -65,12 +65,7 @@ Max(a, b) == IF a > b THEN a ELSE b
 \* ---------------------------------------------------------------- settings
 Slices(len) == {<<FALSE, 0, 0>>} \cup
                (IF Slicing THEN {<<TRUE, a, b>> : a \in 0..len, b \in 0..len} ELSE {<<TRUE, 1, len - 1>>})
-CfgOK(r) ==
-  /\ (r.sl => 0 <= r.ss /\ r.ss <= r.se /\ r.se <= r.len)
-  /\ LET n == IF r.sl THEN r.se - r.ss ELSE r.len IN
-     /\ r.start <= n + 1
-     /\ r.lp => (r.ls <= n + 1 /\ r.le <= n + 1)
-  /\ (Wide \/ ~PInit(r).open)
+CfgOK(r) == Wide \/ ~PInit(r).open
 
 \* ---------------------------------------------------------------- panics / helper
 Panic(who) ==
@@ -83,22 +78,39 @@ Panic(who) ==
 Pushed(p, pl) == <<win[2], win[3], win[4], [v |-> IF pl THEN FrameAt(p) ELSE 0, i |-> p]>>
 TueAfter(pl) == IF pl THEN 4 ELSE Max(tue - 1, 0)
 
+\* The settings of a session are picked in four small steps (so that random simulation can
+\* sample them); the session proper starts with pc = "new".
+C0 == [len |-> 0, sl |-> FALSE, ss |-> 0, se |-> 0, start |-> 0, lp |-> FALSE, ls |-> 0, le |-> -1,
+       rev |-> FALSE, rq |-> 4, sr |-> SR, dev |-> SR, cs |-> 1, at |-> <<0, 0>>]
 Init ==
-  /\ \E len \in Lens, rev \in BOOLEAN, rq \in Rates, cs \in ChunkSizes :
-       \E s \in Slices(len), start \in 0..(len + 1), t1 \in CmdTimes, t2 \in CmdTimes,
-          l \in {<<FALSE, 0, -1>>} \cup {<<TRUE, a, b>> : a \in 0..len, b \in -1..(len + 1)} :
-         /\ c = [len |-> len, sl |-> s[1], ss |-> s[2], se |-> s[3], start |-> start,
-                 lp |-> l[1], ls |-> l[2], le |-> l[3], rev |-> rev, rq |-> rq, sr |-> SR, dev |-> SR, cs |-> cs, at |-> <<t1, t2>>]
-         /\ t1 <= t2 /\ (MaxCmds < 2 => t2 = t1) /\ (MaxCmds < 1 => \A t \in CmdTimes : t1 <= t)
-         /\ (ChunkMix => \A x \in ChunkSizes : (x = cs) = (x = 1 + ((len + s[2] + 2 * s[3] + start + l[2] + 3 * l[3] + rq + 12) % Cardinality(ChunkSizes))))
-         /\ CfgOK(c)
+  /\ c = C0
   /\ pos = 0 /\ loop = NoLoop /\ playing = FALSE
   /\ win = <<[v |-> 0, i |-> 0], [v |-> 0, i |-> 0], [v |-> 0, i |-> 0], [v |-> 0, i |-> 0]>>
-  /\ tue = 0 /\ frac = 0 /\ rate = c.rq /\ rpend = 0 /\ st = "Playing"
-  /\ pc = "new" /\ ret = "" /\ k = 0 /\ tmp = 0 /\ sdir = "" /\ ret2 = "" /\ left = 0 /\ zero = FALSE /\ spin = 0
+  /\ tue = 0 /\ frac = 0 /\ rate = 4 /\ rpend = 0 /\ st = "Playing"
+  /\ pc = "pick1" /\ ret = "" /\ k = 0 /\ tmp = 0 /\ sdir = "" /\ ret2 = "" /\ left = 0 /\ zero = FALSE /\ spin = 0
   /\ cSeekTo = NoVal /\ cSeekBy = NoVal /\ cLoop = NoLoopCmd /\ cRate = NoVal
   /\ nf = 0 /\ ncmd = 0 /\ panicked = ""
-  /\ act = <<"Init">> /\ ev = Tau /\ mon = PInit(c) /\ bad = ""
+  /\ act = <<"Init">> /\ ev = Tau /\ mon = PInit(C0) /\ bad = ""
+
+PickFrame == UNCHANGED <<pos, loop, playing, win, tue, frac, rpend, st, ret, k, tmp, sdir, ret2, left, zero, spin,
+                         cSeekTo, cSeekBy, cLoop, cRate, nf, ncmd, panicked, ev, bad>>
+Pick1 == /\ pc = "pick1" /\ pc' = "pick2" /\ act' = <<"Pick">> /\ PickFrame /\ UNCHANGED mon
+         /\ \E len \in Lens, rev \in BOOLEAN, rq \in Rates :
+              c' = [c EXCEPT !.len = len, !.rev = rev, !.rq = rq] /\ rate' = rq
+Pick2 == /\ pc = "pick2" /\ pc' = "pick3" /\ act' = <<"Pick">> /\ PickFrame /\ UNCHANGED <<mon, rate>>
+         /\ \E s \in Slices(c.len) : s[2] <= s[3] /\ c' = [c EXCEPT !.sl = s[1], !.ss = s[2], !.se = s[3]]
+Pick3 == /\ pc = "pick3" /\ pc' = "pick4" /\ act' = <<"Pick">> /\ PickFrame /\ UNCHANGED <<mon, rate>>
+         /\ \E l \in {<<FALSE, 0, -1>>} \cup {<<TRUE, a, b>> : a \in 0..(NF + 1), b \in -1..(NF + 1)} :
+              c' = [c EXCEPT !.lp = l[1], !.ls = l[2], !.le = l[3]]
+Pick4 == /\ pc = "pick4" /\ pc' = "new" /\ act' = <<"Pick">> /\ PickFrame /\ UNCHANGED rate
+         /\ \E start \in 0..(NF + 1), cs \in ChunkSizes, t1 \in CmdTimes, t2 \in CmdTimes :
+              /\ t1 <= t2 /\ (MaxCmds < 2 => t2 = t1) /\ (MaxCmds < 1 => \A t \in CmdTimes : t1 <= t)
+              /\ (ChunkMix => \A x \in ChunkSizes :
+                     (x = cs) = (x = 1 + ((c.len + c.ss + 2 * c.se + start + c.ls + 3 * c.le + c.rq + 12) % Cardinality(ChunkSizes))))
+              /\ c' = [c EXCEPT !.start = start, !.cs = cs, !.at = <<t1, t2>>]
+              /\ CfgOK(c')
+              /\ mon' = PInit(c')
+Pick == Pick1 \/ Pick2 \/ Pick3 \/ Pick4
 
 \* ---------------------------------------------------------------- StaticSound::new
 \* Transport::new, Resampler::new; then three update_position calls
@@ -283,7 +295,7 @@ Monitor ==
   ELSE IF r # "" THEN bad' = r /\ UNCHANGED mon
   ELSE bad' = "" /\ mon' = Upd(mon, ev')
 
-Next == INext /\ Monitor
+Next == Pick \/ (INext /\ Monitor)
 Spec == Init /\ [][Next]_vars /\ WF_vars(Next)
 
 \* ---------------------------------------------------------------- checked formulas
@@ -305,7 +317,7 @@ WindowInSlice == ~mon.open => \A j \in 1..4 : win[j].v = 0 \/ (win[j].v - Off - 
 \* Stopped only when the window has drained
 StoppedMeansDrained == st = "Stopped" => (~playing /\ tue = 0)
 \* every call returns: the model never stays inside a wrap loop forever (checked as a temporal property)
-Terminates == []<>(pc \in {"idle", "dead"})
+Terminates == []<>(pc \in {"idle", "dead", "pick1", "pick2", "pick3", "pick4"})
 NoHang == ~(loop # NoLoop /\ loop[1] = loop[2] /\
             \/ pc = "inc_w" /\ pos >= loop[2]
             \/ pc = "dec_w" /\ pos <= loop[1]
